@@ -8,6 +8,8 @@ Sources of entries:
                                (an entry starts at a line `src/...@@`; `##` lines are separators)
   tools/mutants/benign_cNN.txt behaviour-preserving edits that must stay silent
   seeded/<id>/patch.diff       changes written by independent sub-agents (git apply)
+  benign/<id>/patch.diff       behaviour-preserving refactorings written by independent sub-agents (--refactorings):
+                               every check whose value graph includes the touched files must stay silent
   --reverts                    the repository's own `fix:` commits reverted (the defect must be re-found)
 
 usage: battery.py [-j N] [--seeded] [--reverts] [c05 c10 ...]  -> tools/mutants/results.json
@@ -38,6 +40,32 @@ REVERTS = {   # fix commit subject prefix -> checks that must report once it is 
     "fix: only override _Unwind_Resume": ["C16"],
     "fix: balance electricity when auxiliary": ["C06"],
 }
+
+
+AFFECTS = {   # source file prefix -> checks whose value graphs include it (used for behaviour-preserving refactorings)
+    "src/balance.rs": ["C01", "C02", "C03", "C04", "C09", "C10", "C11", "C12", "C13"],
+    "src/components.rs": ["C05", "C06", "C10", "C16", "C18", "C09", "C11"],
+    "src/wfactors.rs": ["C07", "C08", "C02", "C19", "C16"],
+    "src/cte.rs": ["C15", "C16", "C08", "C11", "C10"],
+    "src/bin/cteepbd.rs": ["C19", "C16", "C18"],
+    "src/types/tmeta.rs": ["C16", "C18", "C19", "C10"],
+    "src/vecops.rs": ["C01", "C04", "C05", "C06", "C09", "C16"],
+    "src/types/needs": ["C16", "C05", "C18", "C10"],
+    "src/types/energy": ["C01", "C05", "C06", "C08", "C10", "C16", "C18"],
+    "src/types/": ["C16", "C18", "C01", "C04"],
+}
+
+
+def checks_for_patch(path, own=None):
+    files = re.findall(r"^\+\+\+ b/(\S+)", open(path).read(), re.M)
+    props = [own] if own else []
+    for f in files:
+        for k, v in AFFECTS.items():
+            if f.startswith(k):
+                for p in v:
+                    if p not in props:
+                        props.append(p)
+    return props
 
 
 def entries(path):
@@ -97,6 +125,7 @@ def run_one(job):
         res["status"] = "caught" if "caught" in sts else ("checker-error" if "checker-error" in sts else "MISSED")
         if key.startswith("benign/"):
             res["status"] = {"MISSED": "silent (as it must be)", "caught": "FALSE-ALARM"}.get(res["status"], res["status"])
+            res["alarms"] = dict((c, v["rules"]) for c, v in res["checks"].items() if v["status"] != "MISSED")
         return key, res
     finally:
         shutil.rmtree(d, ignore_errors=True)
@@ -136,6 +165,14 @@ def main():
         if want and prop not in want:
             continue
         jobs.append(["benign/%s/%s" % (prop.upper(), os.path.basename(f)[len("benign_c00_"):-5]), [prop.upper()], "patch", f])
+    if "--refactorings" in args:
+        for dname in sorted(glob.glob(os.path.join(V, "benign", "C*"))):
+            name = os.path.basename(dname)
+            prop = name.split("_")[0]
+            if want and prop.lower() not in want and name.lower() not in want:
+                continue
+            pf = os.path.join(dname, "patch.diff")
+            jobs.append(["benign/refactoring/%s" % name, checks_for_patch(pf, prop), "patch", pf])
     if do_seeded:
         for dname in sorted(glob.glob(os.path.join(V, "seeded", "C*"))):
             name = os.path.basename(dname)
@@ -167,7 +204,7 @@ def main():
             except Exception as ex:      # noqa
                 out.append((j[0], {"status": "error", "why": str(ex)[:200]}))
             k, r = out[-1]
-            print(k, r.get("status"), [c.get("rules", [])[:1] for c in r.get("checks", {}).values()], flush=True)
+            print(k, r.get("status"), r.get("alarms") if r.get("alarms") else [c.get("rules", [])[:1] for c in r.get("checks", {}).values()], flush=True)
         return out
     with cf.ThreadPoolExecutor(max_workers=nj) as ex:
         for out in ex.map(work, by_worker.values()):
